@@ -84,6 +84,7 @@ impl Property for C02 {
     }
     fn strategy(&self, tier: Tier) -> BoxedStrategy<Case> {
         let mut dp = DicParams::small();
+        dp.big_matrix = true;
         dp.alphabet = vec!["a", "b", "あ", "ア", "京", "1", "𠮷"];
         dp.max_base = tier.pick(14, 40);
         dp.max_key_chars = 3;
@@ -92,7 +93,7 @@ impl Property for C02 {
         let mut cp = CfgParams::full();
         cp.path_rewrite = false;
         cp.force_fallback = false;
-        (world(dp, cp), vec(pieces(tier.pick(10, 30)), 1..=4)).prop_map(|((dic, cfg), texts)| Case { dic, cfg, texts }).boxed()
+        (world(dp, cp), vec(pieces_long(tier.pick(10, 30)), 1..=4)).prop_map(|((dic, cfg), texts)| Case { dic, cfg, texts }).boxed()
     }
     fn cases_per_shard(&self, tier: Tier) -> u32 {
         tier.pick(5000, 100000)
